@@ -235,6 +235,7 @@ class MultiMatmul(OpDef):
     nin = None
     spellings = ("f",)
     exact = True
+    assoc_free = True  # the parenthesisation is the implementation's choice: values agree up to rounding only
 
     def np(self, a, p):
         return np.asarray(np.linalg.multi_dot([np.asarray(x) for x in a]))
